@@ -246,6 +246,8 @@ class CounterStyle(dict):
                 if len(counter['additive_symbols']) < 1:
                     return self.render_value(counter_value, 'decimal')
                 for weight, symbol_string in counter['additive_symbols']:
+                    if weight == 0:
+                        continue
                     repetitions = counter_value // weight
                     parts.extend([symbol(symbol_string)] * repetitions)
                     counter_value -= weight * repetitions
